@@ -35,7 +35,7 @@ def evalRaw (t : String) : Option RV :=
     else if t == "true" then some (.bool true)
     else if t == "false" then some (.bool false)
     else if t == "\"\"" then some (.str [])
-    else if t.endsWith "i" then (parseDec (t.dropEnd 1).toString).map .imag
+    else if t.toList.getLast? == some 'i' then (parseDec (String.ofList t.toList.dropLast)).map .imag
     else none
 
 def ordHolds (op : String) (o : Ordering) : Option Bool :=
@@ -69,6 +69,12 @@ def lenOf : Val → Option Int
   | .str b _ => some b.length
   | _ => none
 
+/-- float equals the decimal constant exactly -/
+def floatEqDec (f : FVal) (d : Dec) : Bool :=
+  match cmpFloatDec f d with
+  | some .eq => true
+  | _ => false
+
 /-- `field OP constant` -/
 def cmpFldConst (op : String) (ty : Ty) (v : Val) (c : RV) : Option Bool :=
   match ty.underlying, v, c with
@@ -82,13 +88,13 @@ def cmpFldConst (op : String) (ty : Ty) (v : Val) (c : RV) : Option Bool :=
     -- only (in)equality is defined on complex numbers; the constant is 0+d·i
     if isEqOp op then
       let re0 := (decodeF64 r).isZero
-      let imEq := match cmpFloatDec (decodeF64 i) d with | some .eq => true | _ => false
+      let imEq := floatEqDec (decodeF64 i) d
       ordHolds op (if re0 && imEq then .eq else .lt)
     else none
   | .basic .complex64, .c64 r i, .imag d =>
     if isEqOp op then
       let re0 := (decodeF32 r).isZero
-      let imEq := match cmpFloatDec (decodeF32 i) d with | some .eq => true | _ => false
+      let imEq := floatEqDec (decodeF32 i) d
       ordHolds op (if re0 && imEq then .eq else .lt)
     else none
   | .basic .string, .str b _, .str s => if isEqOp op then ordHolds op (if b == s then .eq else .lt) else none
